@@ -17,6 +17,13 @@
  *  K <al> <keyhex> <blockshex> <inpl> AES blocks                   -> R <lib> <ref>
  *  S <ali> <alo> <keyhex> <nonce> <datahex> <parts> <inpl>
  *                                     AES-CTR stream               -> R <lib> <ref>
+ *  F <ali> <alo> <keyhex> <nonce> <startblock> <datahex> <parts> <inpl>
+ *                                     AES-CTR stream at a far offset -> R <lib> <ref>
+ *     as S, but directly after crypto_aesctr_init the stream is moved to block
+ *     <startblock> with the verification hook crypto_aesctr_verif_seek
+ *     (crypto/crypto_aesctr.c under LIBCPERCIVA_VERIF: state as after
+ *     <startblock> whole blocks); <ref> is the model at the absolute position
+ *     (data byte j XOR keystream byte 16*<startblock>+j).
  *  Z                                  -> R Z <counter>=<n> ... disabled=<list|->
  * <ref> is common/refaes.c; the comparison is made by vlib/c03.py.
  *
@@ -51,6 +58,9 @@
 #include "sha256.h"
 
 extern int c03_stub_calls;
+
+/* Verification hook at the end of crypto/crypto_aesctr.c (LIBCPERCIVA_VERIF). */
+void crypto_aesctr_verif_seek(struct crypto_aesctr *, uint64_t);
 
 /* ---- path counters ---- */
 static uint64_t n_shani, n_sse2, n_sse42, n_aesni_kx, n_aesni_blk, n_aesni_ctr;
@@ -597,14 +607,17 @@ main(int argc, char ** argv)
 			crypto_aes_key_free(key);
 			vh_free(lib); vh_free(ref);
 			vh_free(kb); vh_free(b);
-		} else if (op[0] == 'S') {
+		} else if (op[0] == 'S' || op[0] == 'F') {
+			/* F has one more token: the start block behind the nonce. */
+			size_t far = (op[0] == 'F') ? 1 : 0;
 			size_t alo = (size_t)vh_tok_u(&L, 2) & 15;
 			size_t klen, dlen, np, i, off = 0;
 			uint8_t * kb = vh_tok_hex(&L, 3, &klen);
 			uint64_t nonce = vh_tok_u(&L, 4);
-			uint8_t * data = vh_tok_hex(&L, 5, &dlen);
-			size_t * parts = parse_parts(vh_tok(&L, 6), &np);
-			int inplace = (int)vh_tok_u(&L, 7);
+			uint64_t startblk = far ? vh_tok_u(&L, 5) : 0;
+			uint8_t * data = vh_tok_hex(&L, 5 + far, &dlen);
+			size_t * parts = parse_parts(vh_tok(&L, 6 + far), &np);
+			int inplace = (int)vh_tok_u(&L, 7 + far);
 			void * fk, * fi, * fo;
 			uint8_t * kx, * ib, * ob, * ref;
 			uint8_t rk[REFAES_MAXRK];
@@ -612,8 +625,10 @@ main(int argc, char ** argv)
 			struct crypto_aesctr * stream;
 			int nr;
 
-			if (klen != 16 && klen != 32)
-				vh_die("bad S line");
+			if ((klen != 16 && klen != 32) || L.ntok != 8 + far)
+				vh_die("bad S/F line");
+			if (startblk > (UINT64_MAX - dlen) / 16)
+				vh_die("start block beyond the 64-bit byte position");
 			kx = place(kb, klen, (al * 3 + 5) & 15, &fk);
 			if ((key = crypto_aes_key_expand(kx, klen)) == NULL)
 				vh_die("crypto_aes_key_expand failed");
@@ -625,6 +640,8 @@ main(int argc, char ** argv)
 				ob = ib;
 			if ((stream = crypto_aesctr_init(key, nonce)) == NULL)
 				vh_die("crypto_aesctr_init failed");
+			if (far)
+				crypto_aesctr_verif_seek(stream, startblk);
 			for (i = 0; i < np; i++) {
 				if (parts[i] > dlen - off)
 					vh_die("parts exceed data");
@@ -636,7 +653,7 @@ main(int argc, char ** argv)
 				vh_die("parts do not cover data");
 			crypto_aesctr_free(stream);
 			ref = vh_xmalloc(dlen);
-			refaes_ctr(rk, nr, nonce, 0, data, ref, dlen);
+			refaes_ctr(rk, nr, nonce, 16 * startblk, data, ref, dlen);
 			answer2(ob, ref, dlen);
 			crypto_aes_key_free(key);
 			free(fi); free(fo);
